@@ -1,6 +1,7 @@
 #!/bin/bash
 # usage: tools/integrate.sh C17 [C16 ...]  copies an agent's deliverables from /tmp/w/<first>/verif into /verif
 set -e
+shopt -s nullglob
 W=/tmp/w/$1/verif
 for P in "$@"; do
   p=$(echo $P | tr 'A-Z' 'a-z')
